@@ -42,6 +42,7 @@ class C14Property:
         from tools.search import C14 as oracle
 
         chk = common.Check("C14", tier, seed)
+        self.n_compound = 8 if tier == "quick" else 60
         common.use_repo_source()
         chk.coverage["rule"] = RULE
         chk.info("source_blobs", common.source_blob_hashes(corr.SOURCES))
@@ -120,6 +121,8 @@ class C14Property:
                 chk.unexplained(b.get("theorem") or b.get("what"), b.get("detail"))
         return chk.finish()
 
+    n_compound = 8
+
     def oracle_run(self, chk, rng, entries, ctx, n_per_class: int) -> list[dict]:
         from tools.corr import C14 as corr
         from tools.corr import C18m1 as m1
@@ -161,7 +164,7 @@ class C14Property:
                 stats["timeouts"].append("numbers vs symbols: " + entry.key)
             if entry.numpy_printable:
                 try:
-                    f, n, structural = corr.with_cap(4 * CAP_S, oracle.numpy_code_agrees, entry, pools, rng)
+                    f, n, structural = corr.with_cap(8 * CAP_S, oracle.numpy_code_agrees, entry, pools, rng, 6, self.n_compound)
                 except corr._Timeout:  # noqa: SLF001
                     stats["timeouts"].append("numpy code of " + entry.key)
                     f, n, structural = [], 0, []
